@@ -507,27 +507,32 @@ ONE1 = z3.BitVecVal(1, 1)
 ZERO1 = z3.BitVecVal(0, 1)
 
 
-def as_cond(v, depth=0):
-    """symbolic i1 -> z3 Bool, unfolding 1-bit and/or/xor/not/ite into Boolean structure so that the GF(2) layer
-    sees the individual atoms of a compound branch condition"""
+def as_cond(v, memo=None):
+    """symbolic i1 -> z3 Bool, unfolding 1-bit and / or / not / ite(c,1,0) into Boolean structure so that the
+    GF(2) layer sees the individual atoms of a compound branch condition. xor chains stay bit-vector terms (they
+    are affine atoms); shared subterms are unfolded once (memo)."""
     if z3.is_bv_value(v): return z3.BoolVal(v.as_long() == 1)
-    if depth < 40 and z3.is_app(v):
+    if memo is None: memo = {}
+    i = v.get_id()
+    r = memo.get(i)
+    if r is not None: return r
+    r = None
+    if z3.is_app(v) and len(memo) < 2000:
         k = v.decl().kind()
         if k == z3.Z3_OP_ITE:
             c, t, e = v.children()
             if z3.is_bv_value(t) and z3.is_bv_value(e):
-                if t.as_long() == 1 and e.as_long() == 0: return c
-                if t.as_long() == 0 and e.as_long() == 1: return z3.Not(c)
-            return z3.If(c, as_cond(t, depth + 1), as_cond(e, depth + 1))
-        if k == z3.Z3_OP_BOR: return z3.Or(*[as_cond(c, depth + 1) for c in v.children()])
-        if k == z3.Z3_OP_BAND: return z3.And(*[as_cond(c, depth + 1) for c in v.children()])
-        if k == z3.Z3_OP_BNOT: return z3.Not(as_cond(v.arg(0), depth + 1))
-        if k == z3.Z3_OP_BXOR:
-            cs = [as_cond(c, depth + 1) for c in v.children()]
-            r = cs[0]
-            for c in cs[1:]: r = z3.Xor(r, c)
-            return r
-    return v == ONE1
+                if t.as_long() == 1 and e.as_long() == 0: r = c
+                elif t.as_long() == 0 and e.as_long() == 1: r = z3.Not(c)
+        elif k == z3.Z3_OP_BOR: r = z3.Or(*[as_cond(c, memo) for c in v.children()])
+        elif k == z3.Z3_OP_BAND: r = z3.And(*[as_cond(c, memo) for c in v.children()])
+        elif k == z3.Z3_OP_BNOT:
+            a = v.arg(0)
+            if z3.is_app(a) and a.decl().kind() in (z3.Z3_OP_ITE, z3.Z3_OP_BOR, z3.Z3_OP_BAND):
+                r = z3.Not(as_cond(a, memo))
+    if r is None: r = v == ONE1
+    memo[i] = r
+    return r
 
 
 def small_domain(e, depth=0):
